@@ -27,6 +27,7 @@ func init() {
 			{"C15.store-location", "the index server opens the slash-terminated store location in both modes", 2, c15StoreLocation},
 			{"C15.effective-config-writes", "option fallbacks assigned to by-value parameters are read afterwards (no lost assignment)", 2, c15EffectiveWrites},
 			{"C15.put-verifies", "uploaded chunk is built by the verifying constructor and stored only if that succeeded", 3, c15PutVerifies},
+			{"C15.index-name-escaped", "an index name reaches the URL resolution of the HTTP index store only path-escaped", 2, c15IndexNameEscaped},
 			{"C15.confinement", "only a parsed ChunkID / path.Base name reaches the store; file names are built from the id", 8, c15Confinement},
 			{"C15.id-parse-exact", "a path element parses as a chunk id only if it is exactly 64 hex digits (shared with C16/C20)", 1, c20IDParseExact},
 			{"C15.flag-owners", "the variables behind --writeable, --authorization and the verify switches are set by those flags only (shared with C03)", 8, func(c *Ctx) { c.flagOwners() }},
@@ -605,4 +606,68 @@ func escapesToClosure(al *ssa.Alloc) bool {
 		}
 	}
 	return false
+}
+
+// c15IndexNameEscaped: the HTTP index store resolves object names against the store location
+// with url.Parse.  An index name is a single path element chosen by someone else (the base name
+// of a request to an index server): handed to Parse as it is, "%2e%2e%2f.." addresses the parent
+// of the store on the upstream (with the store's credentials), "a:b" is a scheme, "a?b" a query.
+// Every name RemoteHTTPIndex hands to GetObject/StoreObject passed url.PathEscape.
+func c15IndexNameEscaped(c *Ctx) {
+	n := 0
+	for _, fn := range c.libFuncsAll() {
+		if !strings.HasPrefix(fnKey(topOf(fn)), "RemoteHTTPIndex.") {
+			continue
+		}
+		for _, cs := range calls(fn, suffixed("RemoteHTTPBase).GetObject", "RemoteHTTPBase).StoreObject")) {
+			if cs.Parent() != fn {
+				continue
+			}
+			n++
+			a := cs.Common().Args
+			name := a[1]
+			var escaped func(v ssa.Value, depth int) bool
+			escaped = func(v ssa.Value, depth int) bool {
+				if depth > 6 {
+					return false
+				}
+				switch x := v.(type) {
+				case *ssa.Call:
+					if callee(x) == "net/url.PathEscape" {
+						return true
+					}
+					if g := x.Call.StaticCallee(); g != nil && len(g.Blocks) > 0 && g.Pkg == c.LibSSA {
+						rs := returnsOf(g)
+						for _, r := range rs {
+							if len(r.Results) == 0 || !escaped(r.Results[0], depth+1) {
+								return false
+							}
+						}
+						return len(rs) > 0
+					}
+				case *ssa.BinOp:
+					// "./" + escaped: a constant part does not undo the escaping
+					if x.Op == token.ADD {
+						_, kx := x.X.(*ssa.Const)
+						_, ky := x.Y.(*ssa.Const)
+						return (kx || escaped(x.X, depth+1)) && (ky || escaped(x.Y, depth+1)) && !(kx && ky)
+					}
+				case *ssa.Phi:
+					for _, e := range x.Edges {
+						if !escaped(e, depth+1) {
+							return false
+						}
+					}
+					return len(x.Edges) > 0
+				}
+				return false
+			}
+			okE := escaped(name, 0)
+			c.verdict(okE, fnKey(fn)+":"+callee(cs)+":name-escaped", cs.Pos(), "the index name is path-escaped before it is resolved against the store location",
+				"the index name is handed to the URL resolution as it is: a name such as %2e%2e%2fprivate%2fx (the base name of a request to an index server in front of this store) is resolved to ../private/x on the upstream, for GET and PUT")
+		}
+	}
+	if n == 0 {
+		c.bad("RemoteHTTPIndex:name-escaped", token.NoPos, "RemoteHTTPIndex no longer goes through GetObject/StoreObject")
+	}
 }
